@@ -44,6 +44,7 @@ def _solve1(pc, goal, timeout_ms, want_model=True, use_cvc5=True):
         # stage 1: deterministic instantiation to a quantifier-free problem
         try:
             qf, _ = qinst.to_qf(fs)
+            t_inst = time.time() - t0
             s = z3.Solver()
             s.set("timeout", timeout_ms)
             s.add(*qf)
@@ -52,8 +53,13 @@ def _solve1(pc, goal, timeout_ms, want_model=True, use_cvc5=True):
                 return "unsat", time.time() - t0, "z3-qf", None
             if r == z3.sat:
                 qf_model = s.model()
-        except (OverflowError, ValueError, z3.Z3Exception):
-            pass
+                if os.environ.get("PYVC_DEBUG"):
+                    print("qf-stage sat (candidate)", _["instances"], _["rounds"])
+            elif os.environ.get("PYVC_DEBUG"):
+                print("qf-stage", r)
+        except (OverflowError, ValueError, z3.Z3Exception) as e:
+            if os.environ.get("PYVC_DEBUG"):
+                print("qf-stage failed:", repr(e)[:200])
     s = z3.Solver()
     s.set("timeout", timeout_ms if not quantified else min(timeout_ms, 10000))
     s.add(*fs)
